@@ -15,6 +15,8 @@
 #  pow(theta,n) from the environment + oracle bb_exact_tail_ub: binomial tail at the bound does not bracket delta, exact rationals);
 #  C06-2 getCompositeEstimate finalY = yStride * xArrLen -> CAUGHT (bit-exact composite model on the translated CompositeInterpolationXTable
 #  + oracle hll_composite_jump_at_table_end); C06-3 get_icon_confidence_ub reading HIP_LOW_SIDE_DATA -> CAUGHT.
+#  C02-6 (bounds_on_ratios_in_theta_sketched_sets::upper_bound_for_b_over_a taking f from sketch A) -> CAUGHT by C06 (ops 12/13: the model chooses
+#  (count_a, count_b, f = theta(B)) and kappa = 2*hacky_adjuster(f) bit-exactly; the exp/pow part comes through the environment at that kappa).
 # NOT observable (equivalent mutant, reported): M3 "ICON clamp removed" (`if (result >= c) return result; else return c` -> `return result`):
 #  an exhaustive scan of lg_k 4..26 x every coupon count of the polynomial branch (up to 3*10^6) shows the clamp never fires, so no
 #  output changes; the clamp itself is covered by theorem C06_clamps_never_below_count.
@@ -41,6 +43,8 @@ RULE = ('ENUMERATION over the implementation (not proof): the real functions are
         'table for each lg_k, a continuity pair at the table end); the defining bracket of the exact binomial tails checked in exact '
         'rational arithmetic for small sample counts; compute_icon_estimate on (lg_k 3..27, coupon counts around k/2, k, 27k/8, 5.6k, 5.7k, 20k); cpc sketches and union results, '
         'cpc sketch with overwritten estimator registers; bounds_binomial_proportions. '
+        'bounds_on_ratios_in_sampled_sets on an (a, b, f) grid and the theta-sketched wrapper on theta/tuple sketch pairs (B = A n C, A, A \\ C with C '
+        'at a smaller k; A exact or in estimation mode, theta(B) < theta(A)): 0 <= lb <= est <= ub <= 1, exact for f = 1. '
         'BIT-EXACT comparison with the extracted binary64 model wherever only + - * / sqrt, comparisons, ceil and table lookups are '
         'used (clamps of every type, the whole of binomial_bounds except its two log branches — cont_classic bounds, table branches and the exact-tail loops given pow(theta,n) —, HllArray::getCompositeEstimate given the bitmap estimate, rel-err, cpc eps, ICON polynomial, coupon cubic interpolation, erf/normal_cdf); '
         'non-trivial = the case reaches an estimation-mode / table / clamp branch')
@@ -312,8 +316,34 @@ def gen_bbp(rng, tier):
     ops += [[10, d2b(x)] for x in [1e-300, -1e-300, 1e10, -1e10, 0.0, -0.0, 1e-8]]
     return [dict(id='bbp', ops=ops, tags=['binomial-proportions'])]
 
+def gen_ratio(rng, tier):
+    """bounds_on_ratios_in_sampled_sets on an (a, b, f) grid; the theta-sketched wrapper on sketch pairs with theta(B) <= theta(A)"""
+    cases = []
+    ops = []
+    fs = [1.0, nxt(1.0, -1), 0.5, nxt(0.5, 1), nxt(0.5, -1), 0.25, 0.75, 0.9, 0.999, 1e-3, 1e-9, 0.0, -0.5, nxt(1.0, 1), 2.0]
+    fs += [rng.uniform(0.0, 1.0) for _ in range(6 if tier == 'quick' else 60)] + [float(rng.randrange(1, MAXT)) / float(MAXT) for _ in range(4)]
+    for a in [0, 1, 2, 3, 5, 10, 37, 100, 1000, 4096, 10**6] + [rng.randrange(2, 5000) for _ in range(3 if tier == 'quick' else 30)]:
+        for b in sorted(set([0, 1, a // 2, max(0, a - 1), a, a + 1, rng.randrange(0, a + 1)])):
+            for f in fs:
+                ops.append([12, a, b, d2b(f)])
+    cases.append(dict(id='ratio_grid', ops=ops, tags=['ratio-bounds']))
+    ops = []
+    reps = 2 if tier == 'quick' else 12
+    for rep in range(reps):
+        for kind in (0, 1):
+            for lga, lgc in [(10, 5), (12, 6), (8, 8), (9, 5), (11, 7)]:
+                ka, kc = 1 << lga, 1 << lgc
+                for na in [0, 3, ka // 2, ka - 1, 2 * ka + 5, 9 * ka]:              # A exact / A in estimation mode
+                    for mode in (0, 1, 2, 3):
+                        nc = rng.choice([0, 2, kc // 2, 3 * kc, 20 * kc, 50 * kc])
+                        ov = rng.choice([0, min(na, nc) // 2, min(na, nc)])
+                        pa = rng.choice([1.0, 1.0, 0.5]); pc = rng.choice([1.0, 1.0, 0.5, 0.1])
+                        ops.append([13, kind, mode, lga, lgc, f2b(pa), f2b(pc), na, nc, ov, rng.randrange(1, 2**20)])
+    cases.append(dict(id='ratio_sketches', ops=ops, tags=['ratio-bounds', 'ratio-sketches']))
+    return cases
+
 def gen(rng, tier):
-    return (gen_composite(rng, tier) + gen_bb(rng, tier) + gen_sketch_state(rng, tier) + gen_sketch_real(rng, tier) + gen_hll(rng, tier) +
+    return (gen_composite(rng, tier) + gen_ratio(rng, tier) + gen_bb(rng, tier) + gen_sketch_state(rng, tier) + gen_sketch_real(rng, tier) + gen_hll(rng, tier) +
             gen_icon(rng, tier) + gen_cpc(rng, tier) + gen_bbp(rng, tier))
 
 # --------------------------------------------------------------------------------------------------------------
@@ -467,6 +497,17 @@ def oracle(case, irecs, mrecs):
                 fails.append(dict(sig='cpc_est_below_coupons', what='estimate %r below the number of coupons %d' % (est, c), op_index=i))
             if op[1] == 0 and op[3] <= 1 and est != float(op[3]):     # 0 or 1 item: exact (first HIP increment is k/k = 1)
                 fails.append(dict(sig='cpc_small_range', what='estimate %r for %d distinct items' % (est, op[3]), op_index=i))
+        elif code in (12, 13) and len(R) == 4:
+            est, lb, ub = b2d(R[0]), b2d(R[1]), b2d(R[2])
+            if code == 12:
+                f = b2d(op[3]); a = op[1]
+            else:
+                if len(E) != 8: continue
+                f = float(E[3]) / float(MAXT); a = E[0] if E[1] == E[3] else E[4]
+            if isnan(est) or isnan(lb) or isnan(ub) or not (0.0 <= lb <= est <= ub <= 1.0):
+                fails.append(dict(sig='ratio_order', what='ratio bounds: 0 <= lb %r <= est %r <= ub %r <= 1 violated (a %d, f %r)' % (lb, est, ub, a, f), op_index=i))
+            if f == 1.0 and a > 0 and not (lb == est == ub):
+                fails.append(dict(sig='ratio_exact', what='ratio bounds with f = 1 (no sampling) are not exact: lb %r est %r ub %r' % (lb, est, ub), op_index=i))
         elif code == 9 and len(R) == 1 and len(F) == 6:
             est = b2d(R[0]); b = [b2d(x) for x in F]
             triple_checks('bbp', est, b, i, fails)
